@@ -296,6 +296,33 @@ Definition tail_path_with (r : tail_count) (limit k : nat) (l : log) (a : N) : o
   end.
 Definition tail_path : nat -> nat -> log -> N -> option (log * N) := tail_path_with CountUpToCut.
 
+(* A compile racing with an append (S24).  The tail path and the mr seek window take the messages / run_ended frames from
+   the mr sidecar and the head from the full sidecar; an append writes the full sidecar line first and the mr line after
+   it.  `full` = the full sidecar as the reader finds it, `mr` = the reader's view of the mr sidecar (read after the head).
+   head_seq_seen_by_messages_runs_v1 (fixed = true, /repo fix): when the full sidecar's last frame belongs in the mr
+   sidecar and the mr view does not hold it yet, the append is in flight and the head is the frame before it.
+   fixed = false: the code before the fix — the full sidecar's last seq whatever the mr view holds. *)
+Definition last_frame (l : log) : option frame := last (map Some l) None.
+Definition head_seen (fixed : bool) (full mr : log) : N :=
+  match last_frame full with
+  | None => 0
+  | Some f =>
+    if fixed && mr_keep f && (match last_frame mr with Some g => fseq g <? fseq f | None => true end)
+    then fseq f - 1 else fseq f
+  end.
+
+(* The same for a CHECKPOINT frame in flight (S25): the full sidecar line is written first, the checkpoint sidecar line and
+   its index entry last.  `comp` = the checkpoint caches as the compile finds them.  fixed = true
+   (compaction_checkpoint_caches_behind_head_v1, /repo fix): when the full sidecar's last frame is a checkpoint the caches do
+   not hold yet, the *_for_compile_v1 lookups answer from the stream (the full sidecar); fixed = false: from the caches. *)
+Definition ckpts_seen (fixed : bool) (full comp : log) : log :=
+  match last_frame full with
+  | None => comp
+  | Some f =>
+    if fixed && is_ckpt f && (match last_frame comp with Some g => fseq g <? fseq f | None => true end)
+    then filter is_ckpt full else comp
+  end.
+
 (* window_recent_messages_v1_from_message_id_messages_runs_v1: backwards from the boundary over the mr sidecar,
    `if event.seq > from_seq {continue}; push; if message { found += 1; if found >= limit {break} }` *)
 Fixpoint window_rev (from : N) (rl : list frame) (limit found : nat) (acc : list frame) {struct rl} : list frame :=
